@@ -175,34 +175,36 @@ def check(run: Run) -> None:
                 run.sample({"relation": f"{m.name}.{name}", "at": f"{m.rel}:{stmt.lineno}", "sides": f"{describe(l)} {op} {describe(r)}"})
             elif res.kind == "unknown" and "reported" in res.why:
                 run.ob("H1", f"{m.name}:{name}")
-                # the mismatch sits in a private intermediate (`_bracket = radius - _root`) the relation is built from: reported here, under the relation's name
-                # (issues of public statements are reported below; private statements nothing published depends on are derivation scaffolding)
-                private_defs: dict = {}
-                for s_ in m.tree.body:
-                    for st_ in (s_.body if isinstance(s_, ast.With) else [s_]):
-                        if isinstance(st_, (ast.Assign, ast.AnnAssign)) and st_.value is not None:
-                            for t_ in (st_.targets if isinstance(st_, ast.Assign) else [st_.target]):
-                                if isinstance(t_, ast.Name) and t_.id.startswith("_"):
-                                    private_defs.setdefault(t_.id, []).append(st_)
-                deps, todo = set(), [stmt]
-                while todo:
-                    cur = todo.pop()
-                    for nn in ast.walk(cur.value if isinstance(cur, (ast.Assign, ast.AnnAssign)) and cur.value is not None else cur):
-                        if isinstance(nn, ast.Name) and nn.id in private_defs and nn.id not in deps:
-                            deps.add(nn.id)
-                            todo.extend(private_defs[nn.id])
-                for iss in env.issues:
-                    if iss.stmt is None or not iss.targets or not all(t.startswith("_") for t in iss.targets) or not (set(iss.targets) & deps):
-                        continue
-                    key = (iss.rule, name, iss.text)
-                    if key in private_seen:
-                        continue
-                    private_seen.add(key)
-                    run.violate(iss.rule, f"{m.name}:{name}:{iss.text}", m, iss.node,
-                                f"in `{iss.targets[0]}`, which published `{name}` is built from: {iss.msg}  [{iss.text}]", **iss.facts)
             else:
                 why = next((x.why for x in (l, r, res) if x.kind == "unknown"), res.kind)
                 run.skip("H1", f"{m.rel}:{stmt.lineno} {name}", why)
+        # a mismatch inside a PRIVATE intermediate (`_bracket = radius - _root`, `_log_argument = h + _root / r`) that a published relation is built from is reported under
+        # that relation's name - whether or not the relation itself still has a decided dimension (a logarithm swallows its argument's). Issues of public statements are
+        # reported below; private statements nothing published depends on are derivation scaffolding.
+        private_defs: dict = {}
+        for s_ in m.tree.body:
+            for st_ in (s_.body if isinstance(s_, ast.With) else [s_]):
+                if isinstance(st_, (ast.Assign, ast.AnnAssign)) and st_.value is not None:
+                    for t_ in (st_.targets if isinstance(st_, ast.Assign) else [st_.target]):
+                        if isinstance(t_, ast.Name) and t_.id.startswith("_"):
+                            private_defs.setdefault(t_.id, []).append(st_)
+        for name, v, stmt in rels:
+            deps, todo = set(), [stmt]
+            while todo:
+                cur = todo.pop()
+                for nn in ast.walk(cur.value if isinstance(cur, (ast.Assign, ast.AnnAssign)) and cur.value is not None else cur):
+                    if isinstance(nn, ast.Name) and nn.id in private_defs and nn.id not in deps:
+                        deps.add(nn.id)
+                        todo.extend(private_defs[nn.id])
+            for iss in env.issues:
+                if iss.stmt is None or not iss.targets or not all(t.startswith("_") for t in iss.targets) or not (set(iss.targets) & deps):
+                    continue
+                key = (iss.rule, iss.targets[0], iss.text)
+                if key in private_seen:
+                    continue
+                private_seen.add(key)
+                run.violate(iss.rule, f"{m.name}:{name}:{iss.text}", m, iss.node,
+                            f"in `{iss.targets[0]}`, which published `{name}` is built from: {iss.msg}  [{iss.text}]", **iss.facts)
         # every issue raised while evaluating a statement that binds a public name (or a bare public expression)
         seen = set()
         for iss in env.issues:
